@@ -394,7 +394,7 @@ func checkC12(e *env) {
 	r.Rule = "the real gpkg.SourceGeopackage -> gpkg.TargetGeopackage.WriteFeatures on real SQLite (stub spatialite driver, tag verif): feature counts 0..3p+1 for page sizes p = 1..7 (all pairs) plus random larger pairs, " +
 		"tables with an INTEGER primary key (ascending, or descending with gaps), 0..4 further INTEGER/REAL/TEXT columns with NULLs, geometry column at any position, POINT/LINESTRING/POLYGON/MULTIPOLYGON/MULTIPOINT with " +
 		"a share of empty geometries (also all-empty tables), srs 28992/4326/3857; the target file is read back (rows in rowid order, rtree table, gpkg_contents, gpkg_geometry_columns, table_info) and compared with the source. " +
-		"Model: op page (page sizes of the paging function). Non-trivial = count > page size with count mod page size in {0, 1, p-1} or some empty geometry; distinct by (p, n, table shape)."
+		"Then sources with 2..4 tables written through one source and one target object, table after table, as main.go does. Model: op page (page sizes of the paging function). Non-trivial = count > page size with count mod page size in {0, 1, p-1} or some empty geometry; distinct by (p, n, table shape)."
 	dir, err := os.MkdirTemp(scratchBase(), "vh-c12-")
 	if err != nil {
 		r.Notes = append(r.Notes, err.Error())
@@ -472,6 +472,57 @@ func checkC12(e *env) {
 		}
 		if bad := compareTable(t, expectRows(t), t.geoms, got, srcBack); bad != "" {
 			r.violation(Violation{Oracle: "target-complete-and-consistent", Op: desc, Impl: fmt.Sprintf("%d rows, rtree %d, extent %s", len(got.rows), got.rtree, got.extent), Detail: bad})
+		}
+		os.Remove(src)
+		os.Remove(dst)
+	}
+	// ---- several tables through ONE source and ONE target, as main.go does it (target.Table is switched per table)
+	for mi := 0; mi < e.n(40, 600); mi++ {
+		p := 1 + e.rng.Intn(6)
+		nt := 2 + e.rng.Intn(3)
+		var ts []*tableSpec
+		for k := 0; k < nt; k++ {
+			n := []int{0, 1, p - 1, p, p + 1, 2*p + 1, e.rng.Intn(4*p + 1)}[e.rng.Intn(7)]
+			ts = append(ts, randTable(e.rng, fmt.Sprintf("m%d_%d", mi, k), gts[e.rng.Intn(len(gts))], n, []int{0, 0, 20, 100}[e.rng.Intn(4)]))
+		}
+		src := filepath.Join(dir, fmt.Sprintf("msrc%d.gpkg", mi))
+		dst := filepath.Join(dir, fmt.Sprintf("mdst%d.gpkg", mi))
+		if err := writeSource(src, ts); err != nil {
+			r.Notes = append(r.Notes, "could not write a source: "+err.Error())
+			continue
+		}
+		var source tgpkg.SourceGeopackage
+		source.Init(src)
+		tables := source.GetTableInfo()
+		var target tgpkg.TargetGeopackage
+		target.Init(dst, p)
+		if err := target.CreateTables(tables); err != nil {
+			r.violation(Violation{Oracle: "create-tables", Op: fmt.Sprintf("multi page %d", p), Detail: err.Error()})
+		}
+		for _, tb := range tables {
+			source.Table = tb
+			target.Table = tb
+			ch := make(chan processing.Feature)
+			go source.ReadFeatures(ch)
+			target.WriteFeatures(ch)
+		}
+		target.Close()
+		source.Close()
+		if len(tables) != nt {
+			r.violation(Violation{Oracle: "source-table-info", Op: fmt.Sprintf("multi page %d", p), Detail: fmt.Sprintf("%d tables found, %d written", len(tables), nt)})
+		}
+		for k, t := range ts {
+			desc := fmt.Sprintf("page %d %d | table %d of %d in one file (%s): %v, srs %d", p, len(t.geoms), k+1, nt, t.name, t.gtype, t.srs)
+			r.count("page-multi", desc, true)
+			got, err := readBack(dst, t.name, t.gcol)
+			srcBack, err2 := readBack(src, t.name, t.gcol)
+			if err != nil || err2 != nil {
+				r.violation(Violation{Oracle: "target-readable", Op: desc, Detail: fmt.Sprint(err, err2)})
+				continue
+			}
+			if bad := compareTable(t, expectRows(t), t.geoms, got, srcBack); bad != "" {
+				r.violation(Violation{Oracle: "target-complete-and-consistent", Op: desc, Impl: fmt.Sprintf("%d rows, rtree %d, extent %s", len(got.rows), got.rtree, got.extent), Detail: bad})
+			}
 		}
 		os.Remove(src)
 		os.Remove(dst)
